@@ -28,6 +28,8 @@ def job(j):
             return
         if len(st["cases"]) < j["max_cases"] and (not j.get("mutations_only") or rec["nodes"][rec["op"] - 1]["optype"] == "mutation"):
             st["cases"].append(rec)
+        elif len(st["cases"]) >= j["max_cases"]:
+            raise StopIteration
     res = tlc.run("MC_faults.tla", "MC_faults_sim.cfg", on_line=on_line, workers=1, simulate=j["behaviours"], depth=40, seed=seed, timeout=1500)
     w = st["world"]
     all_fields = sorted({f for td in w.types.values() if td["kind"] == "OBJECT" for f in td["fields"]})
